@@ -270,7 +270,9 @@ static uint64_t run_spx(const TinyLP& t, int sc, int ps, int simp, int depth, Ct
             // UNBOUNDED against INFEASIBLE is not judged: both are admissible answers for an LP that is primal and dual infeasible (C02); OPTIMAL against anything else is
             bool v1 = st >= 1 && st <= 3, v2 = str >= 1 && str <= 3;
             if(v1 && v2 && st != str && (st == 1 || str == 1)) j = "status " + std::to_string(st) + ", never-scaled object on the same final LP: status " + std::to_string(str);
-            else if(st == 1 && str == 1 && fabs(spx.objValueReal() - ref.objValueReal()) > 1e-6 * (1 + fabs(ref.objValueReal()))) j = "objective " + TinyLP::num(spx.objValueReal()) + ", never-scaled object on the same final LP: " + TinyLP::num(ref.objValueReal());
+            // 1e-4 relative: these LPs are rescaled by up to 2^16 (row times column factor) on purpose, and both solves satisfy their 1e-6 tolerances in their own (scaled
+            // or unscaled) space only - measured difference on the unchanged tree 5e-6 relative; a wrong exponent changes the optimum by a factor
+            else if(st == 1 && str == 1 && fabs(spx.objValueReal() - ref.objValueReal()) > 1e-4 * (1 + fabs(ref.objValueReal()))) j = "objective " + TinyLP::num(spx.objValueReal()) + ", never-scaled object on the same final LP: " + TinyLP::num(ref.objValueReal());
          }
          else
          {
